@@ -8,6 +8,10 @@ of the touched packages on the mutant (they should still pass for the mutant to 
 import json, subprocess, sys, os, shutil, tempfile
 ENV = "GOFLAGS=-mod=mod GOPROXY=off GOSUMDB=off GOTOOLCHAIN=local"
 def sh(cmd, **kw): return subprocess.run(cmd, shell=True, capture_output=True, text=True, **kw)
+def cleanup(path):
+    tag = subprocess.run(f"echo {path} | cksum | cut -d' ' -f1", shell=True, capture_output=True, text=True).stdout.strip()
+    subprocess.run(f"rm -f /verif/bin/*.{tag} /verif/bin/*.{tag}.build.log /verif/.work/go.{tag}.mod /verif/.work/go.{tag}.sum", shell=True)
+
 def main():
     tier = "thorough" if "--thorough" in sys.argv else "quick"
     files = [a for a in sys.argv[1:] if not a.startswith("--")]
@@ -45,5 +49,5 @@ def main():
                 print(f"{m['id']} x {c} {tier}: {'DETECTED' if r.returncode==1 and viol else 'MISSED'} (exit {r.returncode}) {sig}", flush=True)
         finally:
             shutil.rmtree(d, ignore_errors=True)
-            sh("rm -f /verif/bin/*.[0-9]* /verif/.work/go.*.mod /verif/.work/go.*.sum")
+            cleanup(d)
 main()
